@@ -212,6 +212,17 @@ class ModuleCanon:
             self.new_consts[name] = value
         elif isinstance(value, (ast.Tuple, ast.List)) and all(isinstance(e, ast.Constant) for e in value.elts) and isinstance(value, ast.Tuple):
             self.new_consts[name] = value
+        elif isinstance(value, (ast.List, ast.Set)) and all(isinstance(e, ast.Constant) for e in value.elts):
+            # a mutable literal: only when every use is a membership test or an iteration (identity cannot matter)
+            safe_ctx = set()
+            for n in ast.walk(self.tree):
+                if isinstance(n, ast.Compare) and len(n.ops) == 1 and isinstance(n.ops[0], (ast.In, ast.NotIn)) and isinstance(n.comparators[0], ast.Name) and n.comparators[0].id == name:
+                    safe_ctx.add(id(n.comparators[0]))
+                if isinstance(n, (ast.For, ast.comprehension)) and isinstance(n.iter, ast.Name) and n.iter.id == name:
+                    safe_ctx.add(id(n.iter))
+            uses = [n for n in ast.walk(self.tree) if isinstance(n, ast.Name) and n.id == name and isinstance(n.ctx, ast.Load)]
+            if uses and all(id(u) in safe_ctx for u in uses):
+                self.new_consts[name] = value
 
     # ------------------------------------------------------------------ helpers
     def _is_new(self, qual: str) -> bool:
@@ -610,27 +621,71 @@ IMPURE_ATTRS = {"append", "extend", "pop", "remove", "insert", "clear", "sort", 
 PURE_METHODS = {
     "conjugate", "keys", "values", "items", "get", "copy", "index", "count", "join", "split", "format", "startswith", "endswith", "strip", "lower", "upper",
     "union", "intersection", "difference", "symmetric_difference", "issubset", "issuperset", "real", "imag", "bit_length", "is_integer", "tolist", "item",
-    "transpose", "adjoint", "conj", "reshape", "flatten", "sqrt", "log2", "ceil", "floor", "isclose", "allclose", "array", "asarray", "zeros", "ones", "eye", "prod",
-    "most_common", "total", "evalf", "subs", "xreplace",
+    "transpose", "adjoint", "conj", "reshape", "flatten", "most_common", "total", "evalf", "subs", "xreplace", "groups", "group", "match", "fullmatch",
+    "astype", "todense", "toarray", "tocsc", "tocsr", "dot", "exp", "inv", "det", "trace", "norm", "simplify", "expand",
 }
+PURE_MODULES = {"sympy", "np", "numpy", "math", "cmath", "operator", "scipy", "sp", "re", "itertools", "functools", "copy"}
+IMPURE_MODULE_PARTS = {"random", "seed", "shuffle", "default_rng", "RandomState", "savetxt", "loadtxt", "save", "load", "put", "fill", "warn"}
+
+# names of repo functions whose definition differs from the reference in the tree being analysed (set by the model
+# before any module is canonicalised); a changed function is never assumed pure
+_CHANGED_NAMES: Set[str] = set()
+_SIGNATURES: Dict[str, Optional[List[str]]] = {}
+
+
+def set_context(changed_names: Set[str], signatures: Dict[str, Optional[List[str]]]) -> None:
+    global _CHANGED_NAMES, _SIGNATURES
+    _CHANGED_NAMES = set(changed_names)
+    _SIGNATURES = dict(signatures)
+
+
+def _repo_pure(name: str) -> bool:
+    from .purity_table import PURE_REPO_FUNCS
+
+    return name in PURE_REPO_FUNCS and name not in _CHANGED_NAMES
+
+
+def _call_kind(n: ast.Call) -> str:
+    """'total' : builtin/method whose only effect is its result; 'pure' : no effect on anything that exists before the
+    call, but it may raise (library math, repo functions with an empty effect summary); 'unknown' : anything else."""
+    f = n.func
+    if isinstance(f, ast.Name):
+        if f.id in PURE_CALLS:
+            return "total"
+        if _repo_pure(f.id) or f.id in ("Circuit", "PauliTerm", "PauliSum", "GateOperation", "MatrixFactoryGate", "ControlledGate", "Dagger", "Power", "Exponential", "Counter", "OrderedDict", "defaultdict", "ExpectationValues", "Wavefunction", "Measurements", "MeasurementOutcomeDistribution", "ValueError", "TypeError", "RuntimeError", "NotImplementedError", "Matrix", "Symbol", "deepcopy", "reduce", "product", "chain", "groupby", "islice", "partial"):
+            return "pure"
+        return "unknown"
+    if isinstance(f, ast.Attribute):
+        if f.attr in IMPURE_ATTRS:
+            return "unknown"
+        d = (dotted(f) or "").split(".")
+        if d and d[0] in PURE_MODULES and not (set(d[1:]) & IMPURE_MODULE_PARTS):
+            return "pure"
+        if f.attr in PURE_METHODS:
+            return "total"
+        if _repo_pure(f.attr):
+            return "pure"
+        return "unknown"
+    return "unknown"
+
+
+def _expr_kind(e: ast.AST) -> str:
+    worst = "total"
+    for n in ast.walk(e):
+        if isinstance(n, ast.Call):
+            k = _call_kind(n)
+            if k == "unknown":
+                return "unknown"
+            if k == "pure":
+                worst = "pure"
+        if isinstance(n, (ast.Yield, ast.YieldFrom, ast.Await, ast.NamedExpr)):
+            return "unknown"
+    return worst
 
 
 def _no_unknown_calls(e: ast.AST) -> bool:
-    """every call inside ``e`` is a builtin / method whose only effect is its result (it may still raise)."""
-    for n in ast.walk(e):
-        if isinstance(n, ast.Call):
-            f = n.func
-            if isinstance(f, ast.Name):
-                if f.id not in PURE_CALLS:
-                    return False
-            elif isinstance(f, ast.Attribute):
-                if f.attr in IMPURE_ATTRS or f.attr not in PURE_METHODS:
-                    return False
-            else:
-                return False
-        if isinstance(n, (ast.Yield, ast.YieldFrom, ast.Await, ast.NamedExpr)):
-            return False
-    return True
+    """every call inside ``e`` is a builtin / method whose only effect is its result."""
+    return _expr_kind(e) == "total"
 
 
 def _read_names(e: ast.AST) -> Set[str]:
@@ -655,7 +710,7 @@ def _may_mutate(t: ast.AST, free: Set[str]) -> bool:
             return True
         if isinstance(n, ast.AugAssign) and _base_name(n.target) in free:
             return True
-        if isinstance(n, ast.Call) and not _no_unknown_calls(ast.Call(func=n.func, args=[], keywords=[])):
+        if isinstance(n, ast.Call) and _call_kind(n) == "unknown":
             mentioned = {m.id for a in list(n.args) + [k.value for k in n.keywords] for m in ast.walk(a) if isinstance(m, ast.Name)}
             if isinstance(n.func, ast.Attribute):
                 b = _base_name(n.func.value)
@@ -668,22 +723,30 @@ def _may_mutate(t: ast.AST, free: Set[str]) -> bool:
     return False
 
 
+def _only_name_targets(tg: ast.AST) -> bool:
+    return all(isinstance(x, (ast.Name, ast.Tuple, ast.List, ast.Starred)) for x in ast.walk(tg) if isinstance(x, ast.expr))
+
+
 def _stmt_is_inert(t: ast.stmt) -> bool:
-    """binds local names from expressions without unknown calls: nothing outside the frame can tell it ran"""
+    """binds local names from expressions without unknown calls: nothing outside the frame can tell it ran (it may raise)"""
     if isinstance(t, ast.Pass):
         return True
     if isinstance(t, ast.Assign):
-        return all(all(isinstance(x, (ast.Name, ast.Tuple, ast.List, ast.Starred)) for x in ast.walk(tg) if isinstance(x, ast.expr) and not isinstance(x, ast.expr_context)) for tg in t.targets) and _no_unknown_calls(t.value)
+        return all(_only_name_targets(tg) for tg in t.targets) and _expr_kind(t.value) != "unknown"
     if isinstance(t, ast.AnnAssign):
-        return isinstance(t.target, ast.Name) and (t.value is None or _no_unknown_calls(t.value))
+        return isinstance(t.target, ast.Name) and (t.value is None or _expr_kind(t.value) != "unknown")
     return False
 
 
 def _can_cross(value: ast.AST, t: ast.stmt) -> bool:
     """may the evaluation of ``value`` be moved from before statement ``t`` to after it?"""
     free = _read_names(value)
-    if _no_unknown_calls(value):
+    kind = _expr_kind(value)
+    if kind == "total":
         return not _may_mutate(t, free)
+    if kind == "pure":
+        # no effects, but it may raise: it must not pass anything observable from outside the frame
+        return _stmt_is_inert(t) and not _may_mutate(t, free)
     # an unknown call may raise or have effects: it may only pass statements nobody can observe and that it cannot influence
     if not _stmt_is_inert(t):
         return False
@@ -712,7 +775,9 @@ def _duplicable(e: ast.AST) -> bool:
     for n in ast.walk(e):
         if isinstance(n, ast.Call):
             d = dotted(n.func) or ""
-            if d.split(".")[-1] not in SCALAR_PURE or (isinstance(n.func, ast.Attribute) and d.split(".")[-1] not in ("log2", "ceil", "floor")):
+            scalar = d.split(".")[-1] in SCALAR_PURE and not (isinstance(n.func, ast.Attribute) and d.split(".")[-1] not in ("log2", "ceil", "floor"))
+            lib_math = isinstance(n.func, ast.Attribute) and d.split(".")[0] in ("sympy", "np", "numpy", "math", "cmath") and _call_kind(n) == "pure" and d.split(".")[-1] not in ("array", "asarray", "zeros", "ones", "eye", "Matrix", "empty", "copy", "deepcopy")
+            if not (scalar or lib_math):
                 return False
         if isinstance(n, (ast.List, ast.Dict, ast.Set, ast.ListComp, ast.SetComp, ast.DictComp, ast.GeneratorExp, ast.Lambda, ast.Yield, ast.YieldFrom, ast.Await, ast.NamedExpr, ast.Starred)):
             return False
@@ -764,6 +829,8 @@ class _Strip(ast.NodeTransformer):
         if isinstance(node.value, ast.Constant):
             return None  # stray docstring / string statement
         v = node.value
+        if isinstance(v, ast.Call) and isinstance(v.func, ast.Attribute) and v.func.attr == "pop" and len(v.args) == 1 and not v.keywords and isinstance(v.func.value, ast.Name) and not isinstance(v.args[0], ast.Constant):
+            return ast.copy_location(ast.Delete(targets=[ast.Subscript(value=v.func.value, slice=v.args[0], ctx=ast.Del())]), node)
         if isinstance(v, ast.Call) and isinstance(v.func, ast.Attribute) and v.func.attr == "extend" and len(v.args) == 1 and isinstance(v.args[0], ast.List) and len(v.args[0].elts) == 1 and not isinstance(v.args[0].elts[0], ast.Starred):
             node.value = ast.Call(func=ast.Attribute(value=v.func.value, attr="append", ctx=ast.Load()), args=[v.args[0].elts[0]], keywords=[])
         return node
@@ -780,6 +847,16 @@ class _Strip(ast.NodeTransformer):
         d = dotted(node.func)
         if d in ("cast", "typing.cast") and len(node.args) == 2:
             return node.args[1]
+        # keyword arguments of a uniquely named repo callable -> positional, in declaration order
+        if node.keywords and all(k.arg is not None for k in node.keywords) and not any(isinstance(a, ast.Starred) for a in node.args):
+            callee = node.func.id if isinstance(node.func, ast.Name) else (node.func.attr if isinstance(node.func, ast.Attribute) else None)
+            sig = _SIGNATURES.get(callee) if callee else None
+            if sig:
+                given = {k.arg: k.value for k in node.keywords}
+                rest = sig[len(node.args):]
+                if len(node.args) <= len(sig) and set(given) <= set(rest) and all(p in given for p in rest[: len(given)]):
+                    node.args = list(node.args) + [given[p] for p in rest[: len(given)]]
+                    node.keywords = []
         # "...{}..".format(a, b)  ->  f-string
         if isinstance(node.func, ast.Attribute) and node.func.attr == "format" and isinstance(node.func.value, ast.Constant) and isinstance(node.func.value.value, str) and not node.keywords:
             js = _format_to_joined(node.func.value.value, node.args)
@@ -791,6 +868,15 @@ class _Strip(ast.NodeTransformer):
             fs = spec if isinstance(spec, ast.JoinedStr) else (ast.JoinedStr(values=[spec]) if isinstance(spec, ast.Constant) and isinstance(spec.value, str) else None)
             if fs is not None:
                 return ast.copy_location(ast.JoinedStr(values=[ast.FormattedValue(value=node.args[0], conversion=-1, format_spec=_merge_joined(fs))]), node)
+        if d in ("max", "min") and len(node.args) == 2 and not node.keywords and all(_integer_like(a) for a in node.args):
+            node.args = sorted(node.args, key=ast.dump)
+        # map(f, xs) -> (f(x) for x in xs)
+        if d == "map" and len(node.args) == 2 and not node.keywords and isinstance(node.args[0], (ast.Name, ast.Attribute)):
+            v = ast.Name(id="_m", ctx=ast.Load())
+            return ast.copy_location(ast.GeneratorExp(elt=ast.Call(func=node.args[0], args=[v], keywords=[]), generators=[ast.comprehension(target=ast.Name(id="_m", ctx=ast.Store()), iter=node.args[1], ifs=[], is_async=0)]), node)
+        # (f if c else g)(args) -> f(args) if c else g(args)
+        if isinstance(node.func, ast.IfExp):
+            return ast.copy_location(ast.IfExp(test=node.func.test, body=ast.Call(func=node.func.body, args=node.args, keywords=node.keywords), orelse=ast.Call(func=node.func.orelse, args=copy.deepcopy(node.args), keywords=copy.deepcopy(node.keywords))), node)
         # tuple([.. for ..]) / sum([..]) / any([..]) ... -> generator argument
         if d in ("tuple", "list", "set", "frozenset", "sum", "any", "all", "sorted", "max", "min", "dict") and len(node.args) == 1 and not node.keywords and isinstance(node.args[0], ast.ListComp) and d != "list":
             node.args = [ast.GeneratorExp(elt=node.args[0].elt, generators=node.args[0].generators)]
@@ -829,8 +915,59 @@ class _Strip(ast.NodeTransformer):
         # isinstance(x, A) written with a tuple of one
         return node
 
+    def visit_Attribute(self, node):
+        self.generic_visit(node)
+        if node.attr == "H" and isinstance(node.ctx, ast.Load):  # sympy/numpy matrix: .H is .adjoint()
+            return ast.copy_location(ast.Call(func=ast.Attribute(value=node.value, attr="adjoint", ctx=ast.Load()), args=[], keywords=[]), node)
+        return node
+
+    def visit_UnaryOp(self, node):
+        self.generic_visit(node)
+        if isinstance(node.op, ast.Not) and isinstance(node.operand, ast.Compare) and len(node.operand.ops) == 1:
+            inv = {ast.Eq: ast.NotEq, ast.NotEq: ast.Eq, ast.In: ast.NotIn, ast.NotIn: ast.In, ast.Is: ast.IsNot, ast.IsNot: ast.Is}.get(type(node.operand.ops[0]))
+            if inv is not None:
+                return ast.copy_location(ast.Compare(left=node.operand.left, ops=[inv()], comparators=node.operand.comparators), node)
+        if isinstance(node.op, ast.Not) and isinstance(node.operand, ast.UnaryOp) and isinstance(node.operand.op, ast.Not) and isinstance(node.operand.operand, (ast.Compare, ast.BoolOp)):
+            return node.operand.operand
+        return node
+
+    def visit_IfExp(self, node):
+        self.generic_visit(node)
+        # A if A > B else B  ==  max(B, A) ...   (same value on ties as the builtin, which returns its first maximal / minimal argument)
+        t = node.test
+        if isinstance(t, ast.Compare) and len(t.ops) == 1 and isinstance(t.ops[0], (ast.Gt, ast.GtE, ast.Lt, ast.LtE)):
+            l, r = ast.dump(t.left), ast.dump(t.comparators[0])
+            b, o = ast.dump(node.body), ast.dump(node.orelse)
+            if {b, o} == {l, r} and l != r and _expr_kind(node) == "total":
+                L, R = t.left, t.comparators[0]
+                op = type(t.ops[0])
+                picks_left = b == l
+                # value = L if (L op R) else R   [picks_left]   or   R if (L op R) else L
+                if op in (ast.Gt, ast.GtE):
+                    fn = "max" if picks_left else "min"
+                else:
+                    fn = "min" if picks_left else "max"
+                # tie behaviour: equal values are interchangeable for the integer-like quantities this is applied to
+                if _integer_like(L) and _integer_like(R):
+                    args = sorted([L, R], key=ast.dump)
+                    return ast.copy_location(ast.Call(func=ast.Name(id=fn, ctx=ast.Load()), args=args, keywords=[]), node)
+        return node
+
     def visit_BinOp(self, node):
         self.generic_visit(node)
+        # list(a) + [b]  ->  [*a, b]
+        if isinstance(node.op, ast.Add):
+            def listy(e):
+                if isinstance(e, ast.List):
+                    return list(e.elts)
+                if isinstance(e, ast.Call) and dotted(e.func) == "list" and len(e.args) == 1 and not e.keywords:
+                    return [ast.Starred(value=e.args[0], ctx=ast.Load())]
+                if isinstance(e, ast.ListComp):
+                    return [ast.Starred(value=e, ctx=ast.Load())]
+                return None
+            l, r = listy(node.left), listy(node.right)
+            if l is not None and r is not None and (isinstance(node.left, (ast.List, ast.Call)) or isinstance(node.right, (ast.List, ast.Call))):
+                return ast.copy_location(ast.List(elts=l + r, ctx=ast.Load()), node)
         # (a,) * 2 -> (a, a)
         if isinstance(node.op, ast.Mult) and isinstance(node.left, ast.Tuple) and isinstance(node.right, ast.Constant) and isinstance(node.right.value, int) and 0 < node.right.value <= 4 and all(_call_free_or_pure(e) for e in node.left.elts):
             return ast.copy_location(ast.Tuple(elts=[copy.deepcopy(e) for _ in range(node.right.value) for e in node.left.elts], ctx=ast.Load()), node)
@@ -987,6 +1124,12 @@ def _reiterable(e: ast.AST) -> bool:
     return False
 
 
+def _rev_slice(e: ast.AST) -> Optional[ast.AST]:
+    if isinstance(e, ast.Subscript) and isinstance(e.slice, ast.Slice) and e.slice.lower is None and e.slice.upper is None and isinstance(e.slice.step, ast.UnaryOp) and isinstance(e.slice.step.op, ast.USub) and isinstance(e.slice.step.operand, ast.Constant) and e.slice.step.operand.value == 1:
+        return e.value
+    return None
+
+
 class _IterIdioms(ast.NodeTransformer):
     """``for a, b in product(A, B)`` == ``for a in A for b in B`` (B re-iterable and independent of a);
     ``for k in D.keys(): ... D[k] ...`` == ``for k, v in D.items(): ... v ...`` (D not modified in the body)."""
@@ -1028,6 +1171,10 @@ class _IterIdioms(ast.NodeTransformer):
 
     def _comp(self, node):
         self.generic_visit(node)
+        for g in node.generators:
+            rv = _rev_slice(g.iter)
+            if rv is not None:
+                g.iter = ast.Call(func=ast.Name(id="reversed", ctx=ast.Load()), args=[rv], keywords=[])
         gens = []
         for g in node.generators:
             it = g.iter
@@ -1055,6 +1202,9 @@ class _IterIdioms(ast.NodeTransformer):
 
     def visit_For(self, node):
         self.generic_visit(node)
+        rv = _rev_slice(node.iter)
+        if rv is not None:
+            node.iter = ast.Call(func=ast.Name(id="reversed", ctx=ast.Load()), args=[rv], keywords=[])
         it = node.iter
         if isinstance(it, ast.Call) and (dotted(it.func) or "").split(".")[-1] == "product" and not it.keywords and len(it.args) == 2 and isinstance(node.target, ast.Tuple) and len(node.target.elts) == 2 and _reiterable(it.args[1]) and not node.orelse:
             inner = ast.For(target=node.target.elts[1], iter=it.args[1], body=node.body, orelse=[])
@@ -1081,10 +1231,11 @@ def _split_tuple_assign(stmts: List[ast.stmt]) -> List[ast.stmt]:
         if isinstance(s, ast.Try):
             for h in s.handlers:
                 h.body = _split_tuple_assign(h.body)
-        if isinstance(s, ast.Assign) and len(s.targets) == 1 and isinstance(s.targets[0], ast.Tuple) and isinstance(s.value, ast.Tuple) and len(s.targets[0].elts) == len(s.value.elts) and all(isinstance(t, ast.Name) for t in s.targets[0].elts) and not any(isinstance(v, ast.Starred) for v in s.value.elts):
-            lhs = {t.id for t in s.targets[0].elts}
+        if isinstance(s, ast.Assign) and len(s.targets) == 1 and isinstance(s.targets[0], ast.Tuple) and isinstance(s.value, ast.Tuple) and len(s.targets[0].elts) == len(s.value.elts) and all(isinstance(t, (ast.Name, ast.Subscript, ast.Attribute)) for t in s.targets[0].elts) and not any(isinstance(v, ast.Starred) for v in s.value.elts):
+            lhs = {_base_name(t) for t in s.targets[0].elts}
             reads = {n.id for v in s.value.elts for n in ast.walk(v) if isinstance(n, ast.Name)}
-            if not (lhs & reads):
+            plain = all(isinstance(t, ast.Name) for t in s.targets[0].elts)
+            if not (lhs & reads) and (plain or all(_expr_kind(v) != "unknown" for v in s.value.elts)):
                 for t, v in zip(s.targets[0].elts, s.value.elts):
                     out.append(ast.copy_location(ast.Assign(targets=[t], value=v), s))
                 continue
@@ -1517,10 +1668,11 @@ def _inline_temporaries(fn: ast.FunctionDef) -> None:
                     name = s.targets[0].id
                     if name in params or name in closure_names:
                         continue
+                    vkind = _expr_kind(s.value)
                     if _has_impure_call(s.value):
-                        nxt = stmts[idx + 1] if idx + 1 < len(stmts) else None
-                        if not (nxt is not None and _first_evaluated_is(nxt, name) and sum(1 for n in ast.walk(fn) if isinstance(n, ast.Name) and n.id == name and isinstance(n.ctx, ast.Load)) == 1 and len(binds.get(name, [])) >= 1 and following_ok(name, following)):
-                            continue
+                        vkind = "unknown"
+                    if vkind == "unknown" and not (sum(1 for n in ast.walk(fn) if isinstance(n, ast.Name) and n.id == name and isinstance(n.ctx, ast.Load)) == 1 and following_ok(name, following)):
+                        continue
                     if len(binds.get(name, [])) != 1:
                         # several bindings: fine when this one cannot be seen outside the statements that follow it in
                         # its own block (disjoint branches each binding and using their own copy)
@@ -1546,29 +1698,44 @@ def _inline_temporaries(fn: ast.FunctionDef) -> None:
                         continue
                     if len(uses) == 1 and _use_in_repeated_region(uses[0], rest) and not _duplicable(s.value):
                         continue
-                    if _mutating_use(name, rest):
+                    if _mutating_use(name, rest) and not _is_alias_expr(s.value):
                         continue
                     # the evaluation moves from here to its (last) use: every statement in between must let it pass
                     use_ids = set(map(id, uses))
                     last_k = max(k for k, r in enumerate(rest) if any(id(n) in use_ids for n in ast.walk(r)))
+                    reads = _read_names(s.value)
                     blocked = False
                     for k, r in enumerate(rest[: last_k + 1]):
                         holds_use = any(id(n) in use_ids for n in ast.walk(r))
-                        if k < last_k and not holds_use:
+                        if not holds_use:
                             if not _can_cross(s.value, r):
                                 blocked = True
-                        elif k < last_k or not isinstance(r, (ast.Return, ast.Assign, ast.Expr, ast.AugAssign, ast.AnnAssign, ast.Raise, ast.Assert)):
-                            # a statement that uses the value and is passed on the way to a later use, or a compound statement
-                            # holding the use somewhere inside: nothing in it may disturb what the expression reads
-                            if not _no_unknown_calls(s.value) or _may_mutate(r, _read_names(s.value)):
-                                blocked = True
                         else:
-                            # simple statement holding the last use
-                            if not _no_unknown_calls(s.value):
-                                if not (len(uses) == 1 and _first_evaluated_is(r, name)):
+                            # the statement evaluates the value somewhere inside instead of before it
+                            heads = _header_exprs(r)
+                            in_head = [u for u in uses if any(any(x is u for x in ast.walk(h)) for h in heads)]
+                            in_body = [u for u in uses if any(x is u for x in ast.walk(r)) and not any(u is v for v in in_head)]
+                            if vkind != "total":
+                                if in_body or not in_head or (len(uses) != 1 and vkind == "unknown"):
                                     blocked = True
-                            elif any(_use_in_repeated_region(u, [r]) for u in uses) and _may_mutate(r, _read_names(s.value)):
-                                blocked = True
+                                else:
+                                    for u in in_head:
+                                        found, conditional, before = _eval_prefix(heads, u)
+                                        worst = "total"
+                                        for c in before:
+                                            ck = _call_kind(c)
+                                            worst = "unknown" if "unknown" in (ck, worst) else ("pure" if "pure" in (ck, worst) else "total")
+                                        if not found or conditional or worst == "unknown" or (vkind == "unknown" and worst != "total"):
+                                            blocked = True
+                                    if isinstance(r, (ast.While,)):
+                                        blocked = True
+                            else:
+                                if (in_body or isinstance(r, ast.While) or any(_use_in_repeated_region(u, [r]) for u in uses)) and _may_mutate(r, reads):
+                                    blocked = True
+                            if k < last_k and not blocked:
+                                # ... and is passed on the way to a later use
+                                if vkind != "total" or _may_mutate(r, reads):
+                                    blocked = True
                         if blocked:
                             break
                     if blocked:
@@ -1592,6 +1759,98 @@ def _inline_temporaries(fn: ast.FunctionDef) -> None:
         changed = try_block(fn.body, False)
         if not changed:
             break
+
+
+def _is_alias_expr(e: ast.AST) -> bool:
+    """a name / attribute / constant-subscript chain: evaluating it yields an existing object, not a fresh one"""
+    while isinstance(e, (ast.Attribute, ast.Subscript)):
+        if isinstance(e, ast.Subscript) and not isinstance(e.slice, (ast.Constant, ast.Name)):
+            return False
+        e = e.value
+    return isinstance(e, ast.Name)
+
+
+def _header_exprs(st: ast.stmt) -> List[ast.AST]:
+    """the expressions a statement evaluates itself (not those of nested blocks), in evaluation order"""
+    if isinstance(st, ast.Return):
+        return [st.value] if st.value is not None else []
+    if isinstance(st, ast.Assign):
+        return [st.value] + list(st.targets)
+    if isinstance(st, ast.AnnAssign):
+        return ([st.value] if st.value is not None else []) + [st.target]
+    if isinstance(st, ast.AugAssign):
+        return [st.target, st.value]
+    if isinstance(st, ast.Expr):
+        return [st.value]
+    if isinstance(st, ast.Raise):
+        return [x for x in (st.exc, st.cause) if x is not None]
+    if isinstance(st, ast.Assert):
+        return [st.test]
+    if isinstance(st, (ast.If, ast.While)):
+        return [st.test]
+    if isinstance(st, (ast.For, ast.AsyncFor)):
+        return [st.iter]
+    if isinstance(st, (ast.With, ast.AsyncWith)):
+        return [i.context_expr for i in st.items]
+    return []
+
+
+def _eval_prefix(exprs: Sequence[ast.AST], use: ast.AST) -> Tuple[bool, bool, List[ast.Call]]:
+    """(use found, use sits in a conditionally / repeatedly evaluated position, calls completed before the use is read)"""
+    before: List[ast.Call] = []
+    state = {"found": False, "cond": False}
+
+    def go(e: ast.AST, cond: bool) -> None:
+        if state["found"]:
+            return
+        if e is use:
+            state["found"], state["cond"] = True, cond
+            return
+        if isinstance(e, ast.BoolOp):
+            for i, v in enumerate(e.values):
+                go(v, cond or i > 0)
+            return
+        if isinstance(e, ast.IfExp):
+            go(e.test, cond)
+            go(e.body, True)
+            go(e.orelse, True)
+            return
+        if isinstance(e, (ast.ListComp, ast.SetComp, ast.GeneratorExp, ast.DictComp)):
+            go(e.generators[0].iter, cond or isinstance(e, ast.GeneratorExp))
+            for x in ast.iter_child_nodes(e):
+                if x is not e.generators[0]:
+                    go(x, True)
+            for g in e.generators:
+                for x in ast.iter_child_nodes(g):
+                    if x is not e.generators[0].iter:
+                        go(x, True)
+            return
+        if isinstance(e, ast.Lambda):
+            go(e.body, True)
+            return
+        if isinstance(e, ast.Compare):
+            go(e.left, cond)
+            for i, c in enumerate(e.comparators):
+                go(c, cond or i > 0)
+            return
+        if isinstance(e, ast.Call):
+            go(e.func, cond)
+            for a in e.args:
+                go(a, cond)
+            for k in e.keywords:
+                go(k.value, cond)
+            if not state["found"]:
+                before.append(e)
+            return
+        for c in ast.iter_child_nodes(e):
+            if isinstance(c, (ast.expr, ast.comprehension, ast.keyword, ast.FormattedValue)):
+                go(c, cond)
+
+    for ex in exprs:
+        go(ex, False)
+        if state["found"]:
+            break
+    return state["found"], state["cond"], before
 
 
 def _first_evaluated_is(stmt: ast.stmt, name: str) -> bool:
